@@ -65,8 +65,8 @@ def judge(op: L.Op, call, sp=None):
         k += ":nonzero-scan-input-axes"  # (a family of its own: the constructor slices axis 0 whatever the attribute says)
     if k is not None and k.startswith("types-differ:"):
         given = set()
-        for v in call["vars"]:
-            L.dim_params(v["ty"], given)
+        for v in _present_vars(call):
+            L.dim_params(call["vars"][v]["ty"], given)
         if any(d.startswith("unk__") for d in given):
             # a family of its own: the caller's own dimension name looks like a generated one and is stripped with them
             k = "types-differ:user-dim-named-unk__"
@@ -487,6 +487,14 @@ def _correspond_case(ck, op, call, sp, ans, stats):
         stats["type_proto_compared"] += len(sp["proto_obs"]["to"]) + len(sp["proto_obs"]["from"])
         _cmp("Type._to_onnx of the operand types (field presence included)", sp["proto_obs"]["to"], ans["to_proto"], d)
         _cmp("Type._from_onnx of the TypeProtos ONNX answered with", sp["proto_obs"]["from"], ans.get("from_proto", []), d)
+    # ONNX's answer for the ml operators whose inference spox replaces vs the model's onnxMlElem
+    if "ml_onnx" in ans and not ans["untyped"]:
+        o = L.oracle_run(op, call)
+        if not o["reject"] and o["types"] and isinstance(o["types"][0], dict) and "t" in o["types"][0]:
+            stats["ml_onnx_compared"] += 1
+            x = call["vars"][call["args"][0]]["ty"]
+            exp_shape = x["s"] if op.name == "Binarizer" else None
+            _cmp("ONNX's answer for an ml operator (element type, shape)", [o["types"][0]["t"], o["types"][0]["s"]], [ans["ml_onnx"], exp_shape], d)
     # loop / scan / sequence_map / if_: the types the body's formal arguments were declared with
     if "formals" in ans and sp.get("node") and "formals" in sp["node"]:
         stats["body_formals_compared"] += 1
@@ -496,6 +504,11 @@ def _correspond_case(ck, op, call, sp, ans, stats):
         stats["loop_own_compared"] += 1
         _cmp("Loop supplement (carried outputs: common type of body result and declared argument; other outputs: the standard routine's)",
              [[k, t] for k, t in zip(out_keys(cls, call), sp["types"])], ans["loop_own"], d)
+    if "own_refines_std" in ans:
+        # the hypothesis of supplemented_refines_partial (the own rules only refine the standard answer), per call
+        stats["own_refines_std_checked"] += 1
+        if ans["own_refines_std"] is not True:
+            d.append("hypothesis of supplemented_refines_partial fails on this call: the supplement's own rules do not refine the standard routine's answer")
     if "compress_own" in ans:
         stats["compress_own_compared"] += 1
         if ans["compress_own"] == "inference":
@@ -906,7 +919,7 @@ def run(ck: core.Check):
         ck.cov["modelled_functions"] = {"error": f"{type(e).__name__}: {e}"[:200]}
     res = ck.lean(["SpoxModel.Props.C05"], audit="SpoxModel.Audit.C05")
     if ck.thorough:
-        ck.leanchecker(["SpoxModel.Props.C05"])
+        ck.leanchecker(["SpoxModel.Props.C05", "SpoxModel.Model.MLOnnx", "SpoxModel.Drv.C05"])
     ops = L.load_vocabulary()
     by_key = {o.key: o for o in ops}
     rng = ck.rng
